@@ -79,8 +79,8 @@ pub fn inputs_c02(r: &mut Rng, n: usize, _tier: &str, out: &mut dyn Write) {
                         // near the overflow edge of this unit
                         let f = unit_factor(u);
                         let edge = (i64::MAX as i128 / f) as i64;
-                        let s = if r.chance(1, 2) { 1 } else { -1 };
-                        s * (edge + r.range_i64(-2, 2))
+                        let s: i64 = if r.chance(1, 2) { 1 } else { -1 };
+                        s.saturating_mul(edge.saturating_add(r.range_i64(-2, 2)))
                     }
                     2 => {
                         let f = unit_factor(u);
